@@ -288,6 +288,8 @@ pub struct Child {
     /// when this child is dropped it invokes a waker handed to itself or to a sibling (a sender whose drop wakes
     /// the receiver): destructors run inside polls, removals and the combinator's drop
     pub wake_on_drop: bool,
+    /// what a stream leaf reports from size_hint(): 0 = (0, None), 1 = exact, 2 = (rem/2, Some(rem+3)) — always legal
+    pub hint_mode: u8,
 }
 impl Child {
     pub fn leaf(kind: Kind, script: Vec<Step>) -> Child {
@@ -318,6 +320,7 @@ impl Child {
             exempt: false,
             resumable: false,
             wake_on_drop: false,
+            hint_mode: 0,
         }
     }
     pub fn node(fam: Fam, cont: Cont, n: usize) -> Child {
